@@ -32,11 +32,20 @@ def install():
     def patched(self, savepoint=False, context=None):
         outer = self.session is None
         g = greenlet.getcurrent()
-        if outer and g is not _main and getattr(g, 'sched_index', None) is not None:
+        scheduled = g is not _main and getattr(g, 'sched_index', None) is not None
+        # `reader.independent` inside a transaction in flight (replace_all's retry) is part of that
+        # transaction's step: never yield while this request holds an open transaction
+        if outer and scheduled and not getattr(g, 'in_txn', 0):
             mode = 'w' if self.mode is ef._WRITER else ('a' if self.mode is ef._ASYNC_READER else 'r')
             _main.switch(('txn', mode))
-        with _orig(self, savepoint=savepoint, context=context) as s:
-            yield s
+        if scheduled:
+            g.in_txn = getattr(g, 'in_txn', 0) + 1
+        try:
+            with _orig(self, savepoint=savepoint, context=context) as s:
+                yield s
+        finally:
+            if scheduled:
+                g.in_txn -= 1
     ef._TransactionContext._session = patched
 
 
